@@ -138,7 +138,12 @@ class RandomShim:
     @staticmethod
     def getrandbits(k):
         k = concretize(k)
-        return sym_int(Ctx.cur.fresh("rand%d" % k), 0, (1 << k) - 1)
+        v = sym_int(Ctx.cur.fresh("rand%d" % k), 0, (1 << k) - 1)
+        Ctx.cur.notes  # noqa: B018
+        if not hasattr(Ctx.cur, "draws"):
+            Ctx.cur.draws = []
+        Ctx.cur.draws.append(v)
+        return v
 
     @staticmethod
     def randrange(a, b=None, step=1):
